@@ -633,3 +633,128 @@ def e1(prog):
     if n < 50:
         raise Broken("only %d calls to fallible libdw functions found (floor 50)" % n)
     return inst, findings
+
+
+def m1(prog):
+    """once an imported unit has been resolved, import_partial_units always pushes its children onto the traversal stack"""
+    inst, findings = [], []
+    fs = [f for f in prog.funcs.values() if f["q"].startswith("(anonymous namespace)::import_partial_units<")]
+    if not fs:
+        raise Broken("anchor import_partial_units vanished")
+    seen = set()
+    for f in fs:
+        g = CFG(f)
+        # the resolution condition: the cond node testing dwarf_formref_die (...) != nullptr
+        res = [n for n in g.nodes if n.kind == "cond" and isinstance(n.ast, dict) and any(c.get("fn") == "dwarf_formref_die" for c in calls(n.ast))]
+        if len(res) != 1:
+            raise Broken("import_partial_units no longer resolves the import with one dwarf_formref_die test (unmodelled shape)")
+        r = res[0]
+        c = r.ast
+        resolved_label = True
+        if c.get("k") == "bin" and c.get("op") == "==":
+            resolved_label = False
+        starts = [t for t, lab in r.succs if lab is resolved_label]
+        stack_param = f["params"][0]["id"]
+
+        def pushes(n):
+            return isinstance(n.ast, dict) and any(
+                x.get("fn") in ("push_back", "emplace_back") and isinstance(unwrap(x.get("obj")), dict) and unwrap(x["obj"]).get("id") == stack_param
+                for x in calls(n.ast))
+        bad = False
+        for s in starts:
+            reach = g.reachable(start=s, avoid=pushes)
+            if pushes(g.nodes[s]):
+                continue
+            if any(g.nodes[i].kind == "ret" or g.nodes[i].id == g.exit.id for i in reach):
+                bad = True
+        key = "M1:import_partial_units"
+        if key in seen:
+            continue
+        seen.add(key)
+        inst.append((key, {"instantiations": len(fs)}))
+        if bad:
+            findings.append({"key": key, "where": f["l"],
+                             "msg": "import_partial_units can return after resolving a DW_TAG_imported_unit without pushing the imported unit's children: in cooked mode that import is replaced by nothing instead of the unit's children",
+                             "detail": None})
+    return inst, findings
+
+
+def f6(prog):
+    """a boolean that summarises a scan (declared false before a loop, tested after it) is only ever set to true inside the loop"""
+    inst, findings = [], []
+    n = 0
+    for f in prog.funcs.values():
+        if not prog.rel(f["file"]).startswith("libzwerg/atval"):
+            continue
+        for b in walk(f.get("body")):
+            if b.get("k") != "block":
+                continue
+            st = b["s"]
+            for i, s in enumerate(st):
+                if s.get("k") not in ("for", "while", "rfor", "do"):
+                    continue
+                flags = {}
+                for prev in st[:i]:
+                    if prev.get("k") == "decl":
+                        for v in prev["vars"]:
+                            iv = unwrap(v.get("init"))
+                            if v.get("t") == "bool" and isinstance(iv, dict) and iv.get("k") == "bool" and iv["v"] is False:
+                                flags[v["id"]] = v
+                if not flags:
+                    continue
+                tested_after = set()
+                for later in st[i + 1:]:
+                    for y in walk(later):
+                        if y.get("k") == "ref" and y.get("id") in flags:
+                            tested_after.add(y["id"])
+                for y in walk(s):
+                    if y.get("k") == "asg" and isinstance(unwrap(y["lhs"]), dict) and unwrap(y["lhs"]).get("id") in flags and unwrap(y["lhs"])["id"] in tested_after:
+                        v = flags[unwrap(y["lhs"])["id"]]
+                        n += 1
+                        rhs = unwrap(y["rhs"])
+                        monotone = (y["op"] == "=" and isinstance(rhs, dict) and rhs.get("k") == "bool" and rhs["v"] is True) or y["op"] == "|=" or \
+                            (y["op"] == "=" and any(z.get("k") == "ref" and z.get("id") == v["id"] for z in walk(y["rhs"])))
+                        key = "F6:%s:%s" % (f["q"].split("::")[-1], v["n"])
+                        inst.append((key, {"assignment": short(y)[:60], "monotone": monotone}))
+                        if not monotone:
+                            findings.append({"key": key, "where": y.get("l") or f["l"],
+                                             "msg": "`%s` summarises a scan over all enumerators/children but is overwritten on every iteration (`%s`): only the last element decides, so the signedness chosen for the value depends on element order" % (v["n"], short(y)[:60]),
+                                             "detail": None})
+    if n < 2:
+        raise Broken("the enumerator scan (seen_signed / seen_unsigned) was not found in atval.cc (anchor vanished)")
+    return inst, findings
+
+
+def i1b(prog):
+    """the parent DIE built by fetch_parent_die takes context and import chain from the cursor that climbed the chain"""
+    inst, findings = [], []
+    f = prog.func_opt("(anonymous namespace)::fetch_parent_die")
+    if f is None:
+        raise Broken("anchor fetch_parent_die vanished")
+    cursors = set()
+    for x in walk(f["body"]):
+        tgt = rhs = None
+        if x.get("k") == "asg":
+            tgt, rhs = x["lhs"], x["rhs"]
+        if tgt is not None and any(c.get("fn") == "get_import" for c in calls(rhs)):
+            u = unwrap(tgt)
+            if isinstance(u, dict) and u.get("k") == "ref":
+                cursors.add(u["id"])
+    mk = [c for c in calls(f["body"]) if c.get("f", "").startswith("std::make_unique<value_die")]
+    if len(mk) != 1 or not cursors:
+        raise Broken("fetch_parent_die has an unmodelled shape (no climbing cursor or no single construction)")
+    key = "I1b:fetch_parent_die"
+    roots = {}
+    for a in mk[0]["a"]:
+        for c in calls(a):
+            if c.get("fn") in ("get_import", "get_dwctx") and c.get("obj") is not None:
+                o = unwrap(c["obj"])
+                if isinstance(o, dict) and o.get("k") == "ref":
+                    roots[c["fn"]] = (o["id"], o["n"])
+    inst.append((key, {"cursor_vars": len(cursors), "result_takes": {k: v[1] for k, v in roots.items()}}))
+    for fn, (vid, name) in roots.items():
+        if vid not in cursors:
+            findings.append({"key": key, "where": mk[0]["l"],
+                             "msg": "the parent value takes %s() from `%s`, not from the cursor that climbed the import chain: after crossing an imported_unit boundary the parent carries the child's full import chain (child parent != the DIE, parent* never reaches root)" % (fn, name),
+                             "detail": None})
+    return inst, findings
